@@ -331,7 +331,7 @@ func c13Run(t *rapid.T) {
 		ref[i] = make([]c13Result, nvar)
 		for j := 0; j < nvar; j++ {
 			rt := newRT(i, j)
-			tm, err := plush.NewTemplate(progs[i].text)
+			tm, err := simNewTemplate(progs[i].text)
 			var out string
 			if err == nil {
 				out, err = safeExec(tm, plush.NewContextWith(rt.contextData()))
@@ -453,7 +453,7 @@ func c13Run(t *rapid.T) {
 			}
 		case 6, 7:
 			hist = append(hist, fmt.Sprintf("Parse(prog %d) [cache %v], then Exec xN", i, cacheOn))
-			tm, err := plush.Parse(progs[i].text)
+			tm, err := simParse(progs[i].text)
 			count("c13_op_parse", 1)
 			if err != nil {
 				rt := newRT(i, j)
@@ -478,7 +478,7 @@ func c13Run(t *rapid.T) {
 		case 8:
 			hist = append(hist, fmt.Sprintf("NewTemplate(prog %d).Exec(data %d)", i, j))
 			rt := newRT(i, j)
-			tm, err := plush.NewTemplate(progs[i].text)
+			tm, err := simNewTemplate(progs[i].text)
 			var out string
 			if err == nil {
 				track(tm, i, "NewTemplate")
@@ -537,7 +537,7 @@ func c13Run(t *rapid.T) {
 			count("c13_op_renderr", 1)
 		case 13:
 			hist = append(hist, fmt.Sprintf("CacheSet(text of prog %d, NewTemplate(text of prog %d))", i, i))
-			if tm, err := plush.NewTemplate(progs[i].text); err == nil {
+			if tm, err := simNewTemplate(progs[i].text); err == nil {
 				track(tm, i, "CacheSet")
 				plush.CacheSet(progs[i].text, tm)
 			}
@@ -549,7 +549,7 @@ func c13Run(t *rapid.T) {
 			run := func() (string, error, *Runtime) {
 				rt := newRT(i, j)
 				ctx := plush.NewContextWith(rt.contextData())
-				tm, err := plush.NewTemplate(progs[i].text)
+				tm, err := simNewTemplate(progs[i].text)
 				if err != nil {
 					return "", err, rt
 				}
@@ -557,7 +557,7 @@ func c13Run(t *rapid.T) {
 				if err != nil {
 					return "", err, rt
 				}
-				lt, err := plush.NewTemplate(layoutText)
+				lt, err := simNewTemplate(layoutText)
 				if err != nil {
 					return "", err, rt
 				}
@@ -585,7 +585,7 @@ func c13Run(t *rapid.T) {
 			run := func() (string, error, *Runtime) {
 				rt := newRT(i, j)
 				ctx := plush.NewContextWith(rt.contextData())
-				tm, err := plush.NewTemplate(progs[i].text)
+				tm, err := simNewTemplate(progs[i].text)
 				if err != nil {
 					return "", err, rt
 				}
@@ -659,7 +659,10 @@ func safeExec(tm *plush.Template, ctx *plush.Context) (out string, err error) {
 			out, err = "", &panicErr{r}
 		}
 	}()
-	return tm.Exec(ctx)
+	if herr := underSim(func() { out, err = tm.Exec(ctx) }); herr != nil {
+		return "", herr
+	}
+	return out, err
 }
 
 func safeRender(text string, ctx *plush.Context) (out string, err error) {
@@ -671,7 +674,10 @@ func safeRender(text string, ctx *plush.Context) (out string, err error) {
 			out, err = "", &panicErr{r}
 		}
 	}()
-	return plush.Render(text, ctx)
+	if herr := underSim(func() { out, err = plush.Render(text, ctx) }); herr != nil {
+		return "", herr
+	}
+	return out, err
 }
 
 func safeRenderR(r io.Reader, ctx *plush.Context) (out string, err error) {
@@ -683,7 +689,10 @@ func safeRenderR(r io.Reader, ctx *plush.Context) (out string, err error) {
 			out, err = "", &panicErr{r}
 		}
 	}()
-	return plush.RenderR(r, ctx)
+	if herr := underSim(func() { out, err = plush.RenderR(r, ctx) }); herr != nil {
+		return "", herr
+	}
+	return out, err
 }
 
 func safeBuffalo(text string, data, helpers map[string]interface{}) (out string, err error) {
@@ -695,5 +704,22 @@ func safeBuffalo(text string, data, helpers map[string]interface{}) (out string,
 			out, err = "", &panicErr{r}
 		}
 	}()
-	return plush.BuffaloRenderer(text, data, helpers)
+	if herr := underSim(func() { out, err = plush.BuffaloRenderer(text, data, helpers) }); herr != nil {
+		return "", herr
+	}
+	return out, err
+}
+
+func simNewTemplate(text string) (tm *plush.Template, err error) {
+	if herr := underSim(func() { tm, err = plush.NewTemplate(text) }); herr != nil {
+		return nil, herr
+	}
+	return tm, err
+}
+
+func simParse(text string) (tm *plush.Template, err error) {
+	if herr := underSim(func() { tm, err = plush.Parse(text) }); herr != nil {
+		return nil, herr
+	}
+	return tm, err
 }
